@@ -396,6 +396,47 @@ numbers.Integral.register(SymInt)
 # --------------------------------------------------------------------------- SymReal
 
 
+class FloatNaN:
+    """IEEE NaN as produced by 0/0 or x/0 under np.errstate(ignore): absorbs arithmetic, compares false.
+    Only produced when ``IEEE_DIV`` is switched on by a harness whose code under test relies on that."""
+
+    _inst = None
+
+    def __new__(cls):
+        if cls._inst is None:
+            cls._inst = object.__new__(cls)
+        return cls._inst
+
+    def _same(self, *a, **k):
+        return self
+
+    __add__ = __radd__ = __sub__ = __rsub__ = __mul__ = __rmul__ = __truediv__ = __rtruediv__ = _same
+    __pow__ = __rpow__ = __neg__ = __pos__ = __abs__ = __floordiv__ = __rfloordiv__ = _same
+
+    def _false(self, o):
+        return False
+
+    __lt__ = __le__ = __gt__ = __ge__ = __eq__ = _false
+
+    def __ne__(self, o):
+        return True
+
+    def __hash__(self):
+        return 0
+
+    def __bool__(self):
+        return True
+
+    def __float__(self):
+        return float("nan")
+
+    def __repr__(self):
+        return "nan"
+
+
+IEEE_DIV = False
+
+
 class SymReal:
     """Exact rational/real arithmetic standing in for Python floats (DESIGN 2.4: float
     rounding is not modelled; exact while magnitudes stay below 2**53)."""
@@ -431,7 +472,7 @@ class SymReal:
 
     @staticmethod
     def _ok(o):
-        return isinstance(o, (SymReal, SymInt, SymBool, int, float, numbers.Real))
+        return isinstance(o, (SymReal, SymInt, SymBool, int, float, numbers.Real)) and not isinstance(o, FloatNaN)
 
     def __add__(self, o):
         if not self._ok(o):
@@ -460,8 +501,12 @@ class SymReal:
     def __truediv__(self, o):
         if not self._ok(o):
             return NotImplemented
+        if isinstance(o, FloatNaN):
+            return o
         d = self._r(o)
         if _wrapb(d == 0):
+            if IEEE_DIV:
+                return FloatNaN()
             raise ZeroDivisionError("float division by zero")
         return _wrapr(self.z / d)
 
